@@ -101,6 +101,21 @@ def parseOp (s : String) : M BinOp :=
 /-- evaluate an expression program.  `Except String` = protocol error, inner `Except Err` = what the
 operators do. -/
 partial def evalExpr (j : Json) : M (Except Err (Operand Rat)) := do
+  -- `{"setz": {"z": …, "ztype": …}, "e": expr}`: the redshift attributes assigned on the source `expr` yields
+  -- (`sp.z_type = …; sp.z = …` on a composite or an already redshifted operand)
+  if let some zj := fOpt j "setz" then
+    let inner ← getField j "e" >>= evalExpr
+    let z ← fRat zj "z"
+    match inner with
+    | .ok (.spec s) =>
+        if s.kind = .source then
+          let zs := match fOpt zj "ztype" with
+            | some (.str _) => s.zs.setZType (parseZType zj)
+            | _ => s.zs                     -- no z_type assignment: the object keeps its own
+          return .ok (.spec { s with zs := zs.setZ z })
+        else return .error .typeError
+    | .ok _ => return .error .typeError
+    | .error e => return .error e
   match fOpt j "prim", fOpt j "scalar", fOpt j "op" with
   | some _, _, _ => do
       let s ← parsePrim j
